@@ -225,7 +225,11 @@ def run_faults(acc, job):
     cur = {}
 
     def responder(req, kw):
-        if cur.get('exc'):
+        cur['calls'] = cur.get('calls', 0) + 1
+        # fault sequences: 'always' - every attempt fails; 'once' - only the
+        # first attempt of an evaluation fails, a further one would be
+        # answered True (a transient fault must not be papered over)
+        if cur.get('exc') and (cur['mode'] == 'always' or cur['calls'] == 1):
             raise cur['exc']('injected')
         return 200, b'True', {}
     rules = {'h': 'http://srv.test/c', 's': 'https://srv.test/c',
@@ -235,12 +239,14 @@ def run_faults(acc, job):
         for ct in ('application/x-www-form-urlencoded', 'application/json'):
             enf = enforcer(ct)
             world.set_rules(enf, rules)
-            for f in faults:
+            for f, mode in itertools.product(faults, ('always', 'once')):
                 cur['exc'] = f
+                cur['mode'] = mode
                 for name in ('h', 's', 'nh', 'ah', 'eh'):
                     for do_raise in (False, True):
                         acc.case('faults', True)
                         acc.ev()
+                        cur['calls'] = 0
                         try:
                             r = enf.enforce(name, {}, {'roles': []},
                                             do_raise=do_raise)
@@ -259,9 +265,18 @@ def run_faults(acc, job):
                                 {'fault': f.__name__, 'rule': name,
                                  'content_type': ct, 'do_raise': do_raise},
                                 'raises', got, 'faults')
+                        if not got and cur['calls'] != 1:
+                            acc.violation(
+                                'fault|%s|attempts' % f.__name__,
+                                'transport fault %s on rule %s: %d requests '
+                                'were attempted for one evaluation' %
+                                (f.__name__, name, cur['calls']),
+                                {'fault': f.__name__, 'rule': name,
+                                 'mode': mode}, 1, cur['calls'], 'faults')
                         acc.outcome('raises' if not got else 'returns')
             # a check that is never reached does not contact the server
             cur['exc'] = rx.ConnectionError
+            cur['mode'] = 'always'
             acc.case('faults', True)
             acc.ev()
             if world.decide(enf, 'oh', {}, {}) != ('ok', True):
